@@ -21,6 +21,8 @@ def build(desc, cg=None, order=None):
     """order: None (desc order), "rev" (reverse insertion order) or a list of indices."""
     if cg is None:
         import circuitgraph as cg
+    if desc.get("raw"):
+        return build_raw(desc, cg)
     c = cg.Circuit(name=desc.get("name", "top"))
     nodes = desc["nodes"]
     if order == "rev":
@@ -35,6 +37,34 @@ def build(desc, cg=None, order=None):
     for inst, bbname, ins, outs, conn in desc.get("bbs", []):
         c.add_blackbox(cg.BlackBox(bbname, list(ins), list(outs)), inst, dict(conn))
     return c
+
+
+def build_raw(desc, cg):
+    """Build directly on a networkx graph, the way Circuit(graph=g) users and the fast parser do: nodes that are
+    not outputs carry NO 'output' attribute at all."""
+    import networkx as nx
+
+    g = nx.DiGraph()
+    for name, t, _fi, out in desc["nodes"]:
+        if out:
+            g.add_node(name, type=t, output=True)
+        else:
+            g.add_node(name, type=t)
+    for name, _t, fi, _out in desc["nodes"]:
+        for f in fi:
+            g.add_edge(f, name)
+    bbs = {}
+    for inst, bbname, ins, outs, conn in desc.get("bbs", []):
+        bbs[inst] = cg.BlackBox(bbname, list(ins), list(outs))
+        for p in ins:
+            g.add_node(f"{inst}.{p}", type="bb_input")
+            if p in conn:
+                g.add_edge(conn[p], f"{inst}.{p}")
+        for p in outs:
+            g.add_node(f"{inst}.{p}", type="bb_output")
+            if p in conn:
+                g.add_edge(f"{inst}.{p}", conn[p])
+    return cg.Circuit(name=desc.get("name", "top"), graph=g, blackboxes=bbs)
 
 
 def rename(desc, mapping):
